@@ -27,7 +27,7 @@ REGISTRY = dict(
     note=("Trusted: Coq 8.16.1 kernel (vm_compute, no native_compute), translate/py2coq.py + specs/onpolicy.py, harness/c06.py, Python/numpy/torch/gymnasium. "
           "Modelled, not verified: the policy forward pass (oracle inputs recorded from the run; recomputed with evaluate_actions/predict_values at tolerance 1e-4 by the oracle), float32 rounding "
           "(rewards and unsquashed actions compared at rel 1e-5), numpy vectorisation over envs (the model is per env column; tied by this correspondence). Under VecNormalize (norm_reward, optionally norm_obs; obs clipping off) normalised observations are mapped back to tags by array identity with what "
-          "the wrapper handed out, and the model is compared on (buffer reward - normalised reward + raw reward). Model/OnPolicyCollect.vstep1 duplicates the auto-reset step of Model/VecEnv.v. All C06 theorems are closed under the global context."),
+          "the wrapper handed out, and the model is compared on (buffer reward - normalised reward + raw reward). Known finding of C06: callback-stop-loses-transition-then-stale-last-obs (F20, Refuted/C06_callback_stop.v). Model/OnPolicyCollect.vstep1 restates the auto-reset step of Model/VecEnv.v (proved equal to its per-env projection in Proofs/VecEnvTieProofs.v). All C06 theorems are closed under the global context."),
     technique="machine-checked proof in Coq (induction over the step list) + regenerated-fragment interface lemmas + differential correspondence on real PPO/A2C runs",
 )
 
@@ -889,7 +889,7 @@ def main():
         "policy outputs (actions, values, log-probs, V(terminal obs), last values) are oracle inputs of the model, recorded from the run; the oracle recomputes them with evaluate_actions / predict_values on the frozen policy (1e-4)",
         "float32 rounding is not modelled: rewards and unsquashed actions are compared at rel/abs 1e-5",
         "VecNormalize runs: the reward/observation the algorithm is handed is taken from a recording wrapper around VecNormalize (its statistics are C15's subject)",
-        "a learn() stopped by a callback is not exercised (C13)",
+        "a learn() stopped by a callback is exercised; the step whose callback returned False is not added (known finding F20)",
     ]
     from harness import cov_collect as branchcov
 
